@@ -62,6 +62,9 @@ impl InstructionGenerator {
         if let Some(e) = else_block {
             self.label(labels::case_else(), pos);
             self.visit(e);
+            // to be able to RESUME NEXT after an error in the last statement
+            // (the next instruction pops the SELECT value from the stack)
+            self.mark_statement_address();
         }
     }
 
